@@ -213,3 +213,474 @@ def predict_campaign(sess, rng, count, kinds=KINDS, max_teams=8, max_players=8):
                     teams[i] = [mh.m.rating(p.mu, p.sigma) for p in teams[k]]
         for op in ("win", "draw", "rank"):
             sess.predict(op, mh, teams)
+
+
+# ============================================================================= relational groups
+def random_vals(rng, shape, beta, tau_pos=False):
+    return [[(pick_mu(rng, beta), pick_sigma(rng, beta, tau_pos)) for _ in range(sz)] for sz in shape]
+
+
+def make_teams(mh, vals, rng=None, names=True):
+    """Fresh rating objects holding the given values (names vary when rng is given)."""
+    teams = []
+    for tv in vals:
+        team = []
+        for (mu, sg) in tv:
+            nm = rng.choice(NAMES) if (rng is not None and names) else None
+            team.append(mh.m.rating(mu, sg, nm) if nm is not None else mh.m.rating(mu, sg))
+        teams.append(team)
+    return teams
+
+
+class Gid:
+    def __init__(self):
+        self.n = 0
+
+    def new(self, prop, tag=""):
+        self.n += 1
+        return "%s:%s%d" % (prop, tag, self.n)
+
+
+GID = Gid()
+
+
+def all_encodings(rng, cls):
+    """Several differently written outcome arguments inducing the weak order cls (dense classes)."""
+    n = len(cls)
+    k = max(cls) + 1
+    encs = []
+    encs.append({"ranks": list(cls)})
+    encs.append({"ranks": [float(c) for c in cls]})
+    encs.append({"ranks": [float(c) if i % 2 else int(c) for i, c in enumerate(cls)]})
+    encs.append({"ranks": [int(c) if i % 2 else float(c) for i, c in enumerate(cls)]})
+    encs.append({"ranks": [c - k - 3 for c in cls]})
+    encs.append({"ranks": [c * 2.5 - 1.25 for c in cls]})
+    encs.append({"ranks": [(c + 1) * 1e15 for c in cls]})
+    encs.append({"ranks": [(c + 1) * 10**12 for c in cls]})
+    encs.append({"ranks": [9007199254740992.0 + 2.0 * c for c in cls]})
+    encs.append({"scores": [k - c for c in cls]})
+    encs.append({"scores": [-float(c) for c in cls]})
+    encs.append({"scores": [(-c if i % 2 else -float(c)) for i, c in enumerate(cls)]})
+    encs.append({"scores": [100 - 7 * c for c in cls]})
+    encs.append({"scores": [0.5 - c * 0.125 for c in cls]})
+    if k <= 2:
+        encs.append({"ranks": [bool(c) for c in cls]})
+        encs.append({"scores": [not bool(c) for c in cls]})
+        encs.append({"ranks": [bool(c) if i % 2 else float(c) for i, c in enumerate(cls)]})
+    if cls == list(range(n)):
+        encs.append({})
+    # zeros: -0.0 and 0 and 0.0 are the same value
+    encs.append({"ranks": [(-0.0 if c == 0 else float(c)) for c in cls]})
+    for _ in range(2):
+        kw, _ = encode_order(rng, cls)
+        encs.append(kw)
+    return encs
+
+
+def order_groups(sess, rng, count, kinds=KINDS, max_teams=6, per_group=8):
+    """C03: one game under many equivalent writings of the same weak order."""
+    for _ in range(count):
+        kind = rng.choice(kinds)
+        params, g, beta = pick_model_params(rng, kind, simple=rng.random() < 0.5)
+        sess.reset()
+        mh = sess.model(kind, gamma=g, **params)
+        shape = pick_shape(rng, max_teams, 3)
+        vals = random_vals(rng, shape, beta, mh.m.tau > 0)
+        cls = weak_order(rng, len(shape))
+        encs = all_encodings(rng, cls)
+        rng.shuffle(encs)
+        encs = [{"ranks": list(cls)}] + encs[: per_group - 1]
+        gid = GID.new("C03")
+        for i, kw in enumerate(encs):
+            sess.rate(mh, make_teams(mh, vals), group=gid, role="base" if i == 0 else "order", **kw)
+
+
+def random_perm(rng, n):
+    p = list(range(1, n + 1))
+    rng.shuffle(p)
+    return p
+
+
+def perm_groups(sess, rng, count, prop, ops=("rate",), kinds=KINDS, max_teams=6, per_group=5, exhaustive_upto=0):
+    """C04 / C09 / C10: the same game with teams and members listed in other orders."""
+    import itertools
+
+    for _ in range(count):
+        kind = rng.choice(kinds)
+        params, g, beta = pick_model_params(rng, kind, simple=rng.random() < 0.5)
+        sess.reset()
+        mh = sess.model(kind, gamma=g, **params)
+        shape = pick_shape(rng, max_teams, 3)
+        n = len(shape)
+        vals = random_vals(rng, shape, beta, mh.m.tau > 0)
+        cls = weak_order(rng, n)
+        okw, _ = encode_order(rng, cls)
+        sel = "ranks" if "ranks" in okw else "scores" if "scores" in okw else None
+        ovec = okw.get(sel) if sel else None
+        if n <= exhaustive_upto:
+            tps = [list(p) for p in itertools.permutations(range(1, n + 1))]
+        else:
+            tps = [random_perm(rng, n) for _ in range(per_group)]
+        for op in ops:
+            gid = GID.new(prop)
+            if op == "rate":
+                sess.rate(mh, make_teams(mh, vals), group=gid, role="base", **okw)
+            else:
+                sess.predict(op, mh, make_teams(mh, vals), group=gid, role="base")
+            for tp in tps:
+                mps = [random_perm(rng, shape[tp[k] - 1]) if rng.random() < 0.7 else list(range(1, shape[tp[k] - 1] + 1)) for k in range(n)]
+                pv = [[vals[tp[k] - 1][mps[k][l] - 1] for l in range(len(mps[k]))] for k in range(n)]
+                aux = [tp, mps]
+                if op == "rate":
+                    kw = {}
+                    if sel:
+                        kw[sel] = [ovec[tp[k] - 1] for k in range(n)]
+                    else:
+                        kw["ranks"] = [tp[k] - 1 for k in range(n)]
+                    sess.rate(mh, make_teams(mh, pv), group=gid, role="perm", aux=aux, **kw)
+                else:
+                    sess.predict(op, mh, make_teams(mh, pv), group=gid, role="perm", aux=aux)
+
+
+def effopts_groups(sess, rng, count, kinds=KINDS):
+    """C15: per-call tau / limit_sigma against model-level settings."""
+    for _ in range(count):
+        kind = rng.choice(kinds)
+        beta = BETA0
+        taus = [0, 0.0, beta * 1e-9, beta / 50.0, 10 * beta, beta * rng.random()]
+        t = rng.choice(taus)
+        b = rng.random() < 0.5
+        other_tau = rng.choice([0.0, beta / 50.0, beta])
+        other_lim = rng.random() < 0.5
+        shape = pick_shape(rng, 5, 3)
+        # priors where the clamp matters: large tau relative to sigma makes posterior sigma exceed the prior
+        vals = random_vals(rng, shape, beta, float(t) > 0 and other_tau > 0)
+        okw, _ = encode_order(rng, weak_order(rng, len(shape)))
+        sess.reset()
+        gid = GID.new("C15")
+        m_model = sess.model(kind, tau=float(t), limit_sigma=b)          # model-level setting, no argument
+        sess.rate(m_model, make_teams(m_model, vals), group=gid, role="base", **okw)
+        m_call = sess.model(kind, tau=other_tau, limit_sigma=other_lim)  # per-call arguments override
+        sess.rate(m_call, make_teams(m_call, vals), tau=t, limit_sigma=b, group=gid, role="effopts", **okw)
+        m_tau = sess.model(kind, tau=other_tau, limit_sigma=b)           # only tau per call
+        sess.rate(m_tau, make_teams(m_tau, vals), tau=t, group=gid, role="effopts", **okw)
+        m_lim = sess.model(kind, tau=float(t), limit_sigma=other_lim)    # only limit_sigma per call
+        sess.rate(m_lim, make_teams(m_lim, vals), limit_sigma=b, group=gid, role="effopts", **okw)
+        m_none = sess.model(kind, tau=float(t), limit_sigma=b)           # explicit None = omitted
+        sess.rate(m_none, make_teams(m_none, vals), tau=None, limit_sigma=None, group=gid, role="effopts", **okw)
+
+
+def same_groups(sess, rng, count, prop="C14", kinds=KINDS):
+    """C14: the same call after different histories, with different ids / names / objects."""
+    for _ in range(count):
+        kind = rng.choice(kinds)
+        params, g, beta = pick_model_params(rng, kind, simple=rng.random() < 0.5)
+        sess.reset()
+        fresh = sess.model(kind, gamma=g, **params)
+        used = sess.model(kind, gamma=g, **params)
+        # a history on the used model: calls with every per-call option
+        for _h in range(rng.randint(1, 4)):
+            shape = pick_shape(rng, 4, 2)
+            hv = random_vals(rng, shape, beta, True)
+            kw, _ = encode_order(rng, weak_order(rng, len(shape)))
+            r = rng.random()
+            if r < 0.4:
+                kw["limit_sigma"] = rng.random() < 0.5
+            if rng.random() < 0.4:
+                kw["tau"] = rng.choice([0, beta / 10, beta])
+            if kw.get("tau", used.m.tau) == 0:
+                hv = [[(mu, sg if sg > 0 else beta) for (mu, sg) in tv] for tv in hv]
+            ht = make_teams(used, hv, rng)
+            which = rng.random()
+            if which < 0.6:
+                sess.rate(used, ht, **kw)
+            else:
+                sess.predict(rng.choice(["win", "draw", "rank"]), used, ht)
+        shape = pick_shape(rng, 5, 3)
+        vals = random_vals(rng, shape, beta, fresh.m.tau > 0)
+        okw, _ = encode_order(rng, weak_order(rng, len(shape)))
+        for op in ["rate", "win", "draw", "rank"]:
+            gid = GID.new(prop, "hist")
+            for i, mh in enumerate([fresh, used, used]):
+                teams = make_teams(mh, vals, rng if i else None)
+                if i == 2:  # the same objects used for several predictions, ids set by hand
+                    for t in teams:
+                        for p in t:
+                            p.id = "fixed-id"
+                if op == "rate":
+                    sess.rate(mh, teams, group=gid, role="same" if i else "base", **okw)
+                else:
+                    sess.predict(op, mh, teams, group=gid, role="same" if i else "base")
+
+
+def scale_groups(sess, rng, count, kinds=KINDS):
+    """C16: unit (scaled) and origin (shifted) of the skill scale."""
+    for _ in range(count):
+        kind = rng.choice(kinds)
+        sess.reset()
+        beta = BETA0
+        tau = rng.choice([0.0, beta / 50.0, beta / 3.0])
+        lim = rng.random() < 0.3
+        g = rng.choice(["default", "default", "one", "big", "zero"])
+        base = sess.model(kind, gamma=g, tau=tau, limit_sigma=lim)
+        equal = rng.random() < 0.6
+        shape = pick_shape(rng, 5, 3)
+        if equal:
+            shape = [shape[0]] * len(shape)
+        vals = random_vals(rng, shape, beta, tau > 0)
+        okw, _ = encode_order(rng, weak_order(rng, len(shape)))
+        ks = [2.0 ** -10, 2.0 ** 10, 1e-3, 0.3, 7.0, 1e3, 10 ** rng.uniform(-3, 3)]
+        for op in ["rate", "win", "draw", "rank"]:
+            gid = GID.new("C16", op)
+            if op == "rate":
+                sess.rate(base, make_teams(base, vals), group=gid, role="base", **okw)
+            else:
+                sess.predict(op, base, make_teams(base, vals), group=gid, role="base")
+            for k in rng.sample(ks, 3):
+                mk = sess.model(kind, gamma=g, mu=base.m.mu * k, sigma=base.m.sigma * k, beta=beta * k, tau=tau * k,
+                                limit_sigma=lim, kappa=base.m.kappa)
+                sv = [[(mu * k, sg * k) for (mu, sg) in tv] for tv in vals]
+                if op == "rate":
+                    sess.rate(mk, make_teams(mk, sv), group=gid, role="scaled", aux=[k], **okw)
+                else:
+                    sess.predict(op, mk, make_teams(mk, sv), group=gid, role="scaled", aux=[k])
+            if equal:
+                lo = min(mu for tv in vals for (mu, _s) in tv)
+                hi = max(mu for tv in vals for (mu, _s) in tv)
+                for _ in range(2):
+                    d = rng.uniform(-20 * beta - lo, 20 * beta - hi)
+                    if rng.random() < 0.3:
+                        d = float(round(d))
+                    shv = [[(mu + d, sg) for (mu, sg) in tv] for tv in vals]
+                    if op == "rate":
+                        sess.rate(base, make_teams(base, shv), group=gid, role="shifted", aux=[d], **okw)
+                    else:
+                        sess.predict(op, base, make_teams(base, shv), group=gid, role="shifted", aux=[d])
+
+
+def outcome_groups(sess, rng, count, kinds=KINDS):
+    """C05: two-team games under win/draw/loss; swaps of places in games without ties."""
+    for _ in range(count):
+        kind = rng.choice(kinds)
+        params, g, beta = pick_model_params(rng, kind, simple=rng.random() < 0.4)
+        if g in ("probe",):
+            g = "default"
+        sess.reset()
+        mh = sess.model(kind, gamma=g, **params)
+        shape = [rng.randint(1, 3), rng.randint(1, 3)]
+        vals = random_vals(rng, shape, beta, mh.m.tau > 0)
+        if rng.random() < 0.3:  # big mismatch: 5-8 combined sigma apart
+            for j in range(len(vals[0])):
+                vals[0][j] = (20 * beta * rng.choice([-1, 1]) * rng.uniform(0.5, 1), vals[0][j][1])
+        gid = GID.new("C05", "out")
+        enc = rng.choice([("ranks", [0, 1], [0, 0], [1, 0]), ("ranks", [1.0, 2.0], [3, 3.0], [2, 1]),
+                          ("scores", [5, 1], [2, 2], [0, 7]), ("ranks", [-1, 0], [0.0, 0], [4, 3])])
+        sel, win, draw, loss = enc
+        sess.rate(mh, make_teams(mh, vals), group=gid, role="base", **{sel: win})
+        sess.rate(mh, make_teams(mh, vals), group=gid, role="draw", **{sel: draw})
+        sess.rate(mh, make_teams(mh, vals), group=gid, role="loss", **{sel: loss})
+        # swaps
+        shape = pick_shape(rng, 6, 2)
+        n = len(shape)
+        vals = random_vals(rng, shape, beta, mh.m.tau > 0)
+        if rng.random() < 0.3 and n >= 3:  # identical teams
+            vals[1] = list(vals[0])
+            shape[1] = shape[0]
+        order = random_perm(rng, n)
+        ranks = [order[i] for i in range(n)]
+        gid = GID.new("C05", "swap")
+        sess.rate(mh, make_teams(mh, vals), ranks=ranks, group=gid, role="base")
+        pairs = [(i, j) for i in range(n) for j in range(n) if ranks[j] < ranks[i]]
+        for (i, j) in rng.sample(pairs, min(4, len(pairs))):
+            r2 = list(ranks)
+            r2[i], r2[j] = r2[j], r2[i]
+            sess.rate(mh, make_teams(mh, vals), ranks=r2, group=gid, role="swap", aux=[i + 1, j + 1])
+
+
+def predict_relations(sess, rng, count, kinds=KINDS):
+    """C09 increments, C10 gap / equalised, C11 rank + draw = 1."""
+    for _ in range(count):
+        kind = rng.choice(kinds)
+        params, g, beta = pick_model_params(rng, kind, simple=rng.random() < 0.5)
+        sess.reset()
+        mh = sess.model(kind, gamma=g, **params)
+        shape = pick_shape(rng, 8, 4)
+        n = len(shape)
+        vals = random_vals(rng, shape, beta)
+        # C09: raise one member's mu by a ladder of steps
+        gid = GID.new("C09", "inc")
+        sess.predict("win", mh, make_teams(mh, vals), group=gid, role="base")
+        i = rng.randrange(n)
+        j = rng.randrange(shape[i])
+        mu0 = vals[i][j][0]
+        for step in [math.ulp(mu0) if mu0 != 0 else 5e-324, 1e-9 * beta, 1e-3 * beta, beta, 10 * beta]:
+            mu1 = min(mu0 + step, 20 * beta)
+            v2 = [list(tv) for tv in vals]
+            v2[i][j] = (mu1, vals[i][j][1])
+            sess.predict("win", mh, make_teams(mh, v2), group=gid, role="inc", aux=[i + 1, j + 1])
+        # C11: rank + draw
+        gid = GID.new("C11", "sum")
+        sess.predict("rank", mh, make_teams(mh, vals), group=gid, role="base")
+        sess.predict("draw", mh, make_teams(mh, vals), group=gid, role="rank_draw")
+        # C10: equalised totals
+        gid = GID.new("C10", "eq")
+        sess.predict("draw", mh, make_teams(mh, vals), group=gid, role="base")
+        target = rng.uniform(-5, 15) * beta
+        ev = []
+        for tv in vals:
+            tot = sum(mu for (mu, _s) in tv)
+            d = (target * min(shape) / 1.0 - tot) / len(tv) if False else (target - tot) / len(tv)
+            ev.append([(mu + d, sg) for (mu, sg) in tv])
+        ok = all(abs(mu) <= 20 * beta for tv in ev for (mu, _s) in tv)
+        if ok:
+            sess.predict("draw", mh, make_teams(mh, ev), group=gid, role="equalised")
+        # C10: two teams, widening gap
+        shape2 = [rng.randint(1, 4), rng.randint(1, 4)]
+        v = random_vals(rng, shape2, beta)
+        gid = GID.new("C10", "gap")
+        gap0 = sum(m for (m, _s) in v[0]) - sum(m for (m, _s) in v[1])
+        sgn = 1.0 if gap0 >= 0 else -1.0
+        prev = None
+        for step in [0.0, 1e-12 * beta, 1e-6 * beta, 0.01 * beta, beta, 5 * beta, 30 * beta]:
+            v2 = [list(tv) for tv in v]
+            mu, sg = v2[0][0]
+            mu2 = mu + sgn * step
+            if abs(mu2) > 20 * beta:
+                break
+            v2[0][0] = (mu2, sg)
+            teams = make_teams(mh, v2)
+            if prev is None:
+                sess.predict("draw", mh, teams, group=gid, role="base")
+            else:
+                # compare with the previous (narrower) gap: new group per adjacent pair
+                gid = GID.new("C10", "gap")
+                sess.predict("draw", mh, make_teams(mh, prev), group=gid, role="base")
+                sess.predict("draw", mh, teams, group=gid, role="gap")
+            prev = v2
+
+
+def model_groups(sess, rng, count):
+    """C19: the same call on all five classes (predictions, acceptance, BT part = full on two teams)."""
+    for _ in range(count):
+        params, g, beta = pick_model_params(rng, "TMF", simple=rng.random() < 0.5)
+        sess.reset()
+        shape = pick_shape(rng, 6, 3)
+        if rng.random() < 0.4:
+            shape = shape[:2]
+        vals = random_vals(rng, shape, beta, params.get("tau", 1.0) > 0)
+        okw, _ = encode_order(rng, weak_order(rng, len(shape)))
+        for op in ["rate", "win", "draw", "rank"]:
+            gid = GID.new("C19", op)
+            for i, kind in enumerate(KINDS):
+                mh = sess.model(kind, gamma=g, **params)
+                if op == "rate":
+                    sess.rate(mh, make_teams(mh, vals), group=gid, role="model" if i else "base", **okw)
+                else:
+                    sess.predict(op, mh, make_teams(mh, vals), group=gid, role="model" if i else "base")
+
+
+# ============================================================================= objects
+def object_campaign(sess, rng, count, kinds=KINDS):
+    """C18 / C20: construction, copies, comparisons, ordinals, sorting."""
+    grid_mu = [-3.0, -1.5, 0.0, 1.5, 3.0, 6.0, 25.0, -0.0]
+    grid_sg = [0.0, 0.5, 1.0, 1.5, 2.0, 25.0 / 3.0]
+    for _ in range(count):
+        kind = rng.choice(kinds)
+        sess.reset()
+        mh = sess.model(kind)
+        others = [sess.model(k) for k in kinds if k != kind]
+        # construction
+        for _c in range(3):
+            mu = rng.choice([None, 0, 0.0, -0.0, -3, -3.5, 25, 1e-300, 1e300, rng.uniform(-100, 100)])
+            sg = rng.choice([None, 0, 0.0, -0.0, -2.5, 8, 1e-300, 1e300, rng.uniform(0, 50)])
+            nm = rng.choice([None, "a", "bob", "P 1"])
+            kw = {}
+            if mu is not None or rng.random() < 0.3:
+                kw["mu"] = mu
+            if sg is not None or rng.random() < 0.3:
+                kw["sigma"] = sg
+            if nm is not None or rng.random() < 0.3:
+                kw["name"] = nm
+            sess.new_rating(mh, **kw)
+            a = rng.choice([0, 0.0, -0.0, -3, 25.5, 1e-300, True, rng.uniform(-100, 100)])
+            b = rng.choice([0, 0.0, 2, -1.5, 8.25, 1e300, False, rng.uniform(0, 50)])
+            if nm is None:
+                sess.create_rating(mh, [a, b])
+            else:
+                sess.create_rating(mh, [a, b], name=nm)
+        # pool of ratings with many equal ordinals
+        pool = []
+        for _p in range(6):
+            if rng.random() < 0.7:
+                pool.append(mh.m.rating(rng.choice(grid_mu), rng.choice(grid_sg), rng.choice(NAMES)))
+            else:
+                pool.append(mh.m.rating(rng.uniform(-50, 50), rng.uniform(0, 20)))
+        if rng.random() < 0.5:
+            pool.append(mh.m.rating(pool[0].mu, pool[0].sigma))
+        foreign = [o.m.rating(pool[0].mu, pool[0].sigma) for o in others] + [3, 2.5, "x", None, (1, 2), [pool[0]]]
+        for _q in range(10):
+            a = rng.choice(pool)
+            b = rng.choice(pool) if rng.random() < 0.7 else rng.choice(foreign)
+            sess.compare(rng.choice(["lt", "le", "gt", "ge", "eq", "ne"]), a, b)
+        for a in rng.sample(pool, 3):
+            z = rng.choice([None, 3, 3.0, 0, 1, 2.5, -1, 10])
+            if z is None:
+                sess.ordinal(a)
+            else:
+                sess.ordinal(a, z=z)
+        sess.sort(list(pool))
+        # copies
+        sess.deepcopy(pool[0])
+        nested = [[pool[0], pool[1]], [pool[2]]]
+        sess.deepcopy(nested)
+        sess.deepcopy([nested, (pool[3], [pool[4]])])
+        # hashes: equal for equal (id, mu, sigma), across copies and classes
+        gid = GID.new("C19", "hash")
+        import copy as _copy
+        a = pool[0]
+        sess.hash(a, group=gid, role="base")
+        sess.hash(_copy.deepcopy(a), group=gid, role="same")
+        for o in others:
+            r = o.m.rating(a.mu, a.sigma, "other")
+            r.id = a.id
+            sess.hash(r, group=gid, role="same")
+
+
+def restore_groups(sess, rng, count, kinds=KINDS, games=6):
+    """C20: twin leagues - live objects versus players rebuilt from stored (mu, sigma) before every game."""
+    for _ in range(count):
+        kind = rng.choice(kinds)
+        params, g, beta = pick_model_params(rng, kind, simple=rng.random() < 0.6)
+        sess.reset()
+        mh = sess.model(kind, gamma=g, **params)
+        npl = rng.randint(4, 8)
+        live = [mh.m.rating(pick_mu(rng, beta), pick_sigma(rng, beta), "p%d" % i) for i in range(npl)]
+        store = [(p.mu, p.sigma) for p in live]
+        for _g in range(games):
+            k = rng.randint(2, min(4, npl))
+            idx = rng.sample(range(npl), k)
+            split = [[i] for i in idx]
+            okw, _ = encode_order(rng, weak_order(rng, k))
+            how = rng.choice(["create", "rating", "deepcopy"])
+            op = rng.choice(["rate", "rate", "win", "draw", "rank"])
+            gid = GID.new("C20", "twin")
+            lt = [[live[i] for i in t] for t in split]
+            if how == "create":
+                rt = [[mh.m.create_rating([store[i][0], store[i][1]]) for i in t] for t in split]
+            elif how == "rating":
+                rt = [[mh.m.rating(store[i][0], store[i][1], "restored") for i in t] for t in split]
+            else:
+                import copy as _copy
+                rt = _copy.deepcopy(lt)
+            if op == "rate":
+                out1 = sess.rate(mh, lt, group=gid, role="base", **okw)
+                out2 = sess.rate(mh, rt, group=gid, role="same", **okw)
+                for t, o in zip(split, out2):
+                    for i, p in zip(t, o):
+                        store[i] = (p.mu, p.sigma)
+                for t, o in zip(split, out1):
+                    for i, p in zip(t, o):
+                        live[i] = p
+            else:
+                sess.predict(op, mh, lt, group=gid, role="base")
+                sess.predict(op, mh, rt, group=gid, role="same")
